@@ -619,6 +619,65 @@ def positions(rep, prog, rule):
     rep.floor(rule, "part constructors with explicit positions", n, 4)
 
 
+def sizes(rep, prog, rule):
+    rep.rule(rule, "a split that builds its parts itself sizes them from the floor quotient "
+             "size / parts and hands the size % parts surplus rows out one by one (sizes differ "
+             "by at most one, no part is empty because parts <= size); a step rounded up "
+             "(div_ceil, (size + parts - 1) / parts) makes the parts larger than that: the last "
+             "ones are shorter by more than one or empty (10 rows in 6 parts: 2,2,2,2,2,0), and "
+             "an empty part makes the cropped wrappers' constructor fail. A split with no "
+             "division by the number of parts (and no delegation) is undecided")
+    n = 0
+    for f, m, who in split_impls(prog):
+        sym = Sym(f)
+        if is_delegation(f, m, sym):
+            continue
+        fs = [f] + list(f.closures())
+        divs, rems, ceils = [], [], []
+        for g in fs:
+            gs = sym if g is f else Sym(g)
+            for b, blk in enumerate(g.blocks):
+                if blk["c"]:
+                    continue
+                for j, st in enumerate(blk["s"]):
+                    if st[0] == "a" and st[2][0] == "bin" and st[2][1] in ("Div", "Rem"):
+                        e = gs.rvalue(st[2], b, (b, j))
+                        den = fmt(e[3])
+                        if "num_parts" in den or "parts" in den:
+                            num = e[2]
+                            while num[0] in ("cast", "ovf"):
+                                num = num[2] if num[0] == "cast" else num[1]
+                            if st[2][1] == "Rem":
+                                rems.append((e, st[3]))
+                            elif num[0] == "bin" and num[1] in ("Add", "Sub") and \
+                                    ("num_parts" in fmt(num) or "parts" in fmt(num)):
+                                ceils.append((e, st[3]))       # (size + parts - 1) / parts
+                            else:
+                                divs.append((e, st[3]))
+            for c in g.calls():
+                nm = c.method or c.name.rsplit("::", 1)[-1]
+                if nm in ("div_ceil", "next_multiple_of") and len(c.args) == 2:
+                    a1 = fmt(gs.operand(c.args[1], (c.bb, "term")))
+                    if "parts" in a1:
+                        ceils.append((gs.call_expr(c, (c.bb, "term")), c.at))
+        if not (divs or rems or ceils):
+            continue            # wrappers that re-wrap the parts of an inner split
+        n += 1
+        rep.touch(f)
+        key = f.name
+        if ceils:
+            e, at = ceils[0]
+            rep.bad(rule, key + "|step-rounded-up", at,
+                    "%s sizes its parts with %s, a quotient rounded up: the parts before the last "
+                    "take more than their share, the last ones are more than one row shorter or "
+                    "empty (10 rows / 6 parts: 2,2,2,2,2,0)" % (f.name, fmt(e)[:80]))
+        elif divs and rems:
+            rep.ok(rule, key, divs[0][1], "step %s, surplus %s" % (fmt(divs[0][0])[:50], fmt(rems[0][0])[:50]))
+        else:
+            rep.unk(rule, key, f.loc, "floor quotient %s, remainder %s" % (bool(divs), bool(rems)))
+    rep.floor(rule, "splits that size their parts", n, 4)
+
+
 def run(rep, tier):
     cfgs = ["x86"] if tier == "quick" else ["x86", "x86-rayon", "arm", "wasm"]
     for cfg, prog in programs(cfgs):
@@ -629,6 +688,7 @@ def run(rep, tier):
         rep.call(aliasing, rep, prog, "C14.aliasing")
         rep.call(positions, rep, prog, "C14.positions")
         rep.call(band_start, rep, prog, "C14.band-start")
+        rep.call(sizes, rep, prog, "C14.sizes")
         if cfg != "wasm":
             n = rep.call(c03.arith, rep, prog, "C14.arith", only=lambda f: "split_by_" in f.name) or 0
             rep.floor("C14.arith", "arithmetic asserts in splits", n, 40)
